@@ -67,6 +67,13 @@ CHECKS = {
             'aliasing, stop condition (next increment < minInc), termination as a derived call-count bound plus a wall-clock '
             'watchdog, linear problems solved with the linear solution; also Panel.static(NLgeom=True)',
             'user callables are pure; "equal to 1" read with the driver tolerance 1e-3; termination is a bounded-safety claim', '3 C09'),
+    'C11': ('Hypothesis-generated amplitude vectors / point sets / thread counts; differential oracle: Ritz series evaluated with '
+            'exact Bardell polynomials + Donnell relations; metamorphic: permutation, subset, thread-count invariance',
+            'generated-input search over plate/cpanel/w-only panels, assemblies (groups, reordered) and stiffened bays (every 2-D '
+            'stiffener region, mixed kinds); u,v,w,rotations, strains (linear and non-linear option), stresses with default and '
+            'supplied laminate matrices; conditioning-aware tolerance 1e-11 of sum|c||f||g|',
+            'trusts vlib/ref/bardell.py and vlib/ref/panel.py; true interleaving races are not controllable (thread counts 1..16 varied)',
+            '3 C11'),
     'C10': ('exhaustive enumeration of the finite table domains + Hypothesis-generated sub-intervals/maps/flags; oracle: '
             'exact rational Bardell polynomials; C sources parsed and evaluated in exact rational arithmetic',
             'the C library is compiled from the current tree and every one of the 6x900 full-interval entries x 256 flag '
